@@ -36,7 +36,7 @@ static void *runner(void *arg)
 		} else if (!strcmp(o->kind, "deq")) {
 			int state = 0; struct cds_wfcq_node *n;
 			vrt_log("\"op\":\"call\",\"api\":\"deq\",\"q\":\"q%d\",\"blk\":%d,\"lck\":%d", o->q + 1, o->blk, o->lck);
-			vrt_op_begin(o->blk ? "wfcq_dequeue_blocking" : "wfcq_dequeue_nonblocking", o->blk ? VP_BLOCKING : VP_LOCKFREE);
+			vrt_op_begin(o->blk ? "wfcq_dequeue_blocking" : "wfcq_dequeue_nonblocking", (o->blk || o->lck) ? VP_BLOCKING : VP_LOCKFREE);
 			if (o->lck) {
 				if (o->blk) n = cds_wfcq_dequeue_with_state_blocking(h, t, &state);
 				else { cds_wfcq_dequeue_lock(h, t); n = __cds_wfcq_dequeue_with_state_nonblocking(h, t, &state); cds_wfcq_dequeue_unlock(h, t); }
@@ -55,7 +55,7 @@ static void *runner(void *arg)
 		} else if (!strcmp(o->kind, "splice")) {
 			enum cds_wfcq_ret r;
 			vrt_log("\"op\":\"call\",\"api\":\"splice\",\"q\":\"q%d\",\"s\":\"q%d\",\"blk\":%d,\"lck\":%d", o->q + 1, o->s + 1, o->blk, o->lck);
-			vrt_op_begin("wfcq_splice", o->blk ? VP_BLOCKING : VP_LOCKFREE);
+			vrt_op_begin("wfcq_splice", (o->blk || o->lck) ? VP_BLOCKING : VP_LOCKFREE);
 			if (o->lck) {
 				if (o->blk) r = cds_wfcq_splice_blocking(h, t, &qh[o->s], &qt[o->s]);
 				else { cds_wfcq_dequeue_lock(&qh[o->s], &qt[o->s]); r = __cds_wfcq_splice_nonblocking(h, t, &qh[o->s], &qt[o->s]); cds_wfcq_dequeue_unlock(&qh[o->s], &qt[o->s]); }
